@@ -128,6 +128,22 @@ PKGS = ["p", "q", "r", "pk", "Pk", "p:x"]       # also two names equal up to cas
 TAGS = ["t", "u", "f::x", "f::y"]
 
 
+def _camel(name):
+    parts = name.split("_")
+    return parts[0] + "".join(x.capitalize() for x in parts[1:])
+
+
+def _call(rng, obj, name, *args):
+    """obj.<name>(*args), half of the time through the deprecated camelCase alias (the same function under another name)"""
+    alias = _camel(name)
+    if alias != name and hasattr(obj, alias) and rng.random() < 0.5:
+        import warnings
+        with warnings.catch_warnings():
+            warnings.simplefilter("ignore")
+            return getattr(obj, alias)(*args)
+    return getattr(obj, name)(*args)
+
+
 def run_history(real, rng, n_ops, t):
     DB = real.DB
     colls = [(DB(), MDB())]
@@ -171,29 +187,29 @@ def run_history(real, rng, n_ops, t):
                 m.read(lines, flt)
             else:
                 if op in ("reverse", "copy", "reverse_copy", "facet_collection"):
-                    nd, nm_ = getattr(d, op)(), getattr(m, op)()
+                    nd, nm_ = _call(rng, d, op), getattr(m, op)()
                     ops.append([i, op])
                 elif op.startswith("choose_packages"):
                     sel = rng.sample(PKGS + ["nope", "t"], 2)     # also names the collection does not contain (they are ignored)
                     cp = op.endswith("_copy")
                     if cp:
                         sel = [p for p in sel if p in m.db]       # the copying variant raises KeyError for unknown names
-                    nd, nm_ = getattr(d, op)(list(sel)), m.choose_packages(sel, copy=cp)
+                    nd, nm_ = _call(rng, d, op, list(sel)), m.choose_packages(sel, copy=cp)
                     ops.append([i, op, sel])
                 elif op.startswith("filter_packages_tags"):
                     keep = rng.choice(["all", "has-t"])
                     f = (lambda pt: True) if keep == "all" else (lambda pt: "t" in pt[1])
-                    nd, nm_ = getattr(d, op)(f), m.filter_packages_tags(f, copy=op.endswith("_copy"))
+                    nd, nm_ = _call(rng, d, op, f), m.filter_packages_tags(f, copy=op.endswith("_copy"))
                     ops.append([i, op, keep])
                 elif op.startswith("filter_packages"):
                     keep = rng.choice(["all", "not-q"])
                     f = (lambda p: True) if keep == "all" else (lambda p: p != "q")
-                    nd, nm_ = getattr(d, op)(f), m.filter_packages(f, copy=op.endswith("_copy"))
+                    nd, nm_ = _call(rng, d, op, f), m.filter_packages(f, copy=op.endswith("_copy"))
                     ops.append([i, op, keep])
                 else:
                     keep = rng.choice(["all", "not-u"])
                     f = (lambda tg: True) if keep == "all" else (lambda tg: tg != "u")
-                    nd, nm_ = getattr(d, op)(f), m.filter_tags(f, copy=op.endswith("_copy"))
+                    nd, nm_ = _call(rng, d, op, f), m.filter_tags(f, copy=op.endswith("_copy"))
                     ops.append([i, op, keep])
                 colls.append((nd, nm_))
         except Exception as e:
@@ -206,13 +222,13 @@ def run_history(real, rng, n_ops, t):
             if mm.inverse_ok():
                 rel = {(p, tg) for p, ts in mm.db.items() for tg in ts}
                 for p in sorted(set(PKGS) | set(mm.db)):       # in a reversed collection the "packages" are tags
-                    if p in mm.db and dd.tags_of_package(p) != {tg for (pp, tg) in rel if pp == p}:
+                    if p in mm.db and _call(rng, dd, "tags_of_package", p) != {tg for (pp, tg) in rel if pp == p}:
                         return t.failed("tags_of_package disagrees with the relation", operations=ops, package=p)
                 for tg in sorted(set(TAGS + ["f"]) | set(mm.rdb)):
                     exp = {pp for (pp, t2) in rel if t2 == tg}
-                    if dd.packages_of_tag(tg) != exp or dd.card(tg) != len(exp) or dd.has_tag(tg) != (tg in mm.rdb):
+                    if _call(rng, dd, "packages_of_tag", tg) != exp or dd.card(tg) != len(exp) or _call(rng, dd, "has_tag", tg) != (tg in mm.rdb):
                         return t.failed("packages_of_tag / card / has_tag disagree with the relation", operations=ops, tag=tg)
-                if dd.package_count() != len(mm.db) or dd.tag_count() != len(mm.rdb):
+                if _call(rng, dd, "package_count") != len(mm.db) or _call(rng, dd, "tag_count") != len(mm.rdb):
                     return t.failed("package_count / tag_count disagree", operations=ops)
                 # the remaining query methods, and a pickle round trip, against the same relation
                 pk = sorted(mm.db)
